@@ -21,6 +21,12 @@ def T_str(t) -> str:
         return "string"
     if k == "dbytes":
         return "byte[]"
+    if k == "sbytes":
+        return "byte[%d]" % t[1]
+    if k == "ref":
+        return t[1]
+    if k == "txn":
+        return t[1]
     if k == "sarray":
         return "%s[%d]" % (T_str(t[1]), t[2])
     if k == "darray":
@@ -52,6 +58,8 @@ def elem_types(t, n=None) -> List[Any]:
         return [t[1]] * n
     if k == "address":
         return [("byte",)] * 32
+    if k == "sbytes":
+        return [("byte",)] * t[1]
     if k in ("string", "dbytes"):
         return [("byte",)] * n
     raise ValueError(t)
@@ -68,6 +76,10 @@ def static_len(t) -> int:
         return t[1] // 8
     if k == "address":
         return 32
+    if k == "sbytes":
+        return t[1]
+    if k == "ref":
+        return 1
     if k in ("sarray", "tuple", "ntuple"):
         ms = elem_types(t)
         total, i = 0, 0
@@ -102,6 +114,14 @@ def to_spec(t):
         return abi.StringTypeSpec()
     if k == "dbytes":
         return abi.DynamicBytesTypeSpec()
+    if k == "sbytes":
+        return abi.StaticBytesTypeSpec(t[1])
+    if k == "ref":
+        return {"account": abi.AccountTypeSpec, "asset": abi.AssetTypeSpec, "application": abi.ApplicationTypeSpec}[t[1]]()
+    if k == "txn":
+        return {"txn": abi.TransactionTypeSpec, "pay": abi.PaymentTransactionTypeSpec, "keyreg": abi.KeyRegisterTransactionTypeSpec,
+                "acfg": abi.AssetConfigTransactionTypeSpec, "axfer": abi.AssetTransferTransactionTypeSpec,
+                "afrz": abi.AssetFreezeTransactionTypeSpec, "appl": abi.ApplicationCallTransactionTypeSpec}[t[1]]()
     if k == "sarray":
         return abi.StaticArrayTypeSpec(to_spec(t[1]), t[2])
     if k == "darray":
